@@ -464,8 +464,8 @@ package redis
 //@   prop C04 C11 C02
 //@   consumes req
 //@   requires v != nil
-//@   callpre SetResponse @redirections-are-followed-not-relayed arg1 == v && !(v.Type == 45 && i != 0 - 1 && (lower(str(v.Text[:i])) == lower("moved") || lower(str(v.Text[:i])) == lower("ask")) && c.onRedirection != nil)
-//@   callpre field:client.onRedirection @only-moved-or-ask-errors-are-redirected arg0 == req && arg1 == v && v.Type == 45 && (lower(str(v.Text[:i])) == lower("moved") || lower(str(v.Text[:i])) == lower("ask"))
+//@   callpre SetResponse @redirections-are-followed-not-relayed arg1 == v && !(isredirection(v) && c.onRedirection != nil)
+//@   callpre field:client.onRedirection @only-moved-or-ask-errors-are-redirected arg0 == req && arg1 == v && isredirection(v)
 
 //@ func (*upstream).handleRedirection
 //@   prop C04 C11 C02
